@@ -102,8 +102,10 @@ namespace foonathan
             memory_pool& operator=(memory_pool&& other) noexcept
             {
                 leak_checker::operator=(detail::move(other));
-                arena_     = detail::move(other.arena_);
+                // the nodes of the free list live in the blocks of the arena,
+                // and moving a list re-links its nodes: do it before the arena releases the old blocks
                 free_list_ = detail::move(other.free_list_);
+                arena_     = detail::move(other.arena_);
                 return *this;
             }
             /// @}
